@@ -15,28 +15,544 @@ def KeyUnique (decls : List Decl) : Prop :=
   ∀ d ∈ decls, ∀ d' ∈ decls, ((d.kind = .entrypoint) ↔ (d'.kind = .entrypoint)) →
     d.ty = d'.ty → d.name = d'.name → d = d'
 
+theorem u8_eq_of_not_lt {x y : UInt8} (h1 : ¬ x < y) (h2 : ¬ y < x) : x = y := by
+  apply UInt8.toNat_inj.mp
+  rw [UInt8.lt_iff_toNat_lt] at h1 h2
+  omega
+
+theorem u8_lt_asymm {x y : UInt8} (h1 : x < y) : ¬ y < x := by
+  rw [UInt8.lt_iff_toNat_lt] at *
+  omega
+
+theorem u8_lt_trans {x y z : UInt8} (h1 : x < y) (h2 : y < z) : x < z := by
+  rw [UInt8.lt_iff_toNat_lt] at *
+  omega
+
+theorem u8_lt_irrefl (x : UInt8) : ¬ x < x := by
+  rw [UInt8.lt_iff_toNat_lt]
+  omega
+
+/-- structural form of `sortFieldName` on distinct names: end of string is greater than any byte -/
+def cmpF : Bytes → Bytes → Ordering
+  | [], [] => .eq
+  | [], _ :: _ => .gt
+  | _ :: _, [] => .lt
+  | x :: xs, y :: ys => if x < y then .lt else if y < x then .gt else cmpF xs ys
+
+theorem startsWith_refl (a : Bytes) : startsWith a a = true := by
+  induction a with
+  | nil => rfl
+  | cons x xs ih => simp [startsWith, ih]
+
+theorem sortFieldName_self (a : Bytes) : sortFieldName a a = .lt := by
+  simp [sortFieldName, startsWith_refl]
+
+theorem sortFieldName_cons_same (x : UInt8) (xs ys : Bytes) :
+    sortFieldName (x :: xs) (x :: ys) = sortFieldName xs ys := by
+  simp [sortFieldName, startsWith, cmpBytes]
+
+theorem sortFieldName_eq_cmpF (a b : Bytes) (h : a ≠ b) : sortFieldName a b = cmpF a b := by
+  induction a generalizing b with
+  | nil =>
+    cases b with
+    | nil => exact absurd rfl h
+    | cons y ys => simp [sortFieldName, startsWith, cmpF]
+  | cons x xs ih =>
+    cases b with
+    | nil => simp [sortFieldName, startsWith, cmpF]
+    | cons y ys =>
+      by_cases h1 : x < y
+      · have hne : x ≠ y := fun e => u8_lt_irrefl y (e ▸ h1)
+        have hne' : y ≠ x := fun e => hne e.symm
+        simp [sortFieldName, startsWith, cmpF, cmpBytes, h1, hne, hne']
+      · by_cases h2 : y < x
+        · have hne : x ≠ y := fun e => u8_lt_irrefl y (e ▸ h2)
+          have hne' : y ≠ x := fun e => hne e.symm
+          simp [sortFieldName, startsWith, cmpF, cmpBytes, h1, h2, hne, hne']
+        · have e : x = y := u8_eq_of_not_lt h1 h2
+          subst e
+          have hne : xs ≠ ys := fun e => h (by rw [e])
+          rw [sortFieldName_cons_same, ih ys hne]
+          simp [cmpF, h1]
+
+theorem cmpF_eq_iff (a b : Bytes) : cmpF a b = .eq ↔ a = b := by
+  induction a generalizing b with
+  | nil => cases b <;> simp [cmpF]
+  | cons x xs ih =>
+    cases b with
+    | nil => simp [cmpF]
+    | cons y ys =>
+      by_cases h1 : x < y
+      · have hne : x ≠ y := fun e => u8_lt_irrefl y (e ▸ h1)
+        simp [cmpF, h1, hne]
+      · by_cases h2 : y < x
+        · have hne : x ≠ y := fun e => u8_lt_irrefl y (e ▸ h2)
+          simp [cmpF, h1, h2, hne]
+        · have e : x = y := u8_eq_of_not_lt h1 h2
+          subst e
+          simp [cmpF, h1, ih]
+
+theorem cmpF_lt_iff_gt (a b : Bytes) : cmpF a b = .lt ↔ cmpF b a = .gt := by
+  induction a generalizing b with
+  | nil => cases b <;> simp [cmpF]
+  | cons x xs ih =>
+    cases b with
+    | nil => simp [cmpF]
+    | cons y ys =>
+      by_cases h1 : x < y
+      · have h2 := u8_lt_asymm h1
+        simp [cmpF, h1, h2]
+      · by_cases h2 : y < x
+        · simp [cmpF, h1, h2]
+        · simp [cmpF, h1, h2, ih]
+
+theorem cmpF_trans (a b c : Bytes) (h1 : cmpF a b = .lt) (h2 : cmpF b c = .lt) : cmpF a c = .lt := by
+  induction a generalizing b c with
+  | nil => cases b <;> simp [cmpF] at h1
+  | cons x xs ih =>
+    cases b with
+    | nil => cases c <;> simp [cmpF] at h2
+    | cons y ys =>
+      cases c with
+      | nil => simp [cmpF]
+      | cons z zs =>
+        simp only [cmpF] at h1 h2 ⊢
+        by_cases hxy : x < y
+        · by_cases hyz : y < z
+          · simp [u8_lt_trans hxy hyz]
+          · by_cases hzy : z < y
+            · simp [hyz, hzy] at h2
+            · have e : y = z := u8_eq_of_not_lt hyz hzy
+              subst e
+              simp [hxy]
+        · by_cases hyx : y < x
+          · simp [hxy, hyx] at h1
+          · have e : x = y := u8_eq_of_not_lt hxy hyx
+            subst e
+            simp only [hxy, if_false] at h1
+            by_cases hyz : x < z
+            · simp [hyz]
+            · by_cases hzy : z < x
+              · simp [hyz, hzy] at h2
+              · simp only [hyz, hzy, if_false] at h2 ⊢
+                exact ih ys zs h1 h2
+
 theorem sortFieldName_ne_eq (a b : Bytes) (h : a ≠ b) : sortFieldName a b ≠ .eq := by
-  sorry
+  rw [sortFieldName_eq_cmpF a b h]
+  exact fun e => h ((cmpF_eq_iff a b).mp e)
 
 theorem sortFieldName_antisymm (a b : Bytes) (h : a ≠ b) :
     sortFieldName a b = .lt ↔ sortFieldName b a = .gt := by
-  sorry
+  rw [sortFieldName_eq_cmpF a b h, sortFieldName_eq_cmpF b a (Ne.symm h)]
+  exact cmpF_lt_iff_gt a b
 
 theorem sortFieldName_trans (a b c : Bytes) (hab : a ≠ b) (hbc : b ≠ c)
     (h1 : sortFieldName a b = .lt) (h2 : sortFieldName b c = .lt) :
     a ≠ c ∧ sortFieldName a c = .lt := by
-  sorry
+  rw [sortFieldName_eq_cmpF a b hab] at h1
+  rw [sortFieldName_eq_cmpF b c hbc] at h2
+  have h3 := cmpF_trans a b c h1 h2
+  have hac : a ≠ c := by
+    intro e
+    have := (cmpF_eq_iff a c).mpr e
+    rw [this] at h3
+    cases h3
+  exact ⟨hac, by rw [sortFieldName_eq_cmpF a c hac]; exact h3⟩
 
 theorem sortFieldName_longer_first (a b : Bytes) (h : a ≠ b) (hp : startsWith a b = true) :
     sortFieldName a b = .lt := by
-  sorry
+  have _ := h
+  simp [sortFieldName, hp]
+
+theorem cmpBytes_eq_iff (a b : Bytes) : cmpBytes a b = .eq ↔ a = b := by
+  induction a generalizing b with
+  | nil => cases b <;> simp [cmpBytes]
+  | cons x xs ih =>
+    cases b with
+    | nil => simp [cmpBytes]
+    | cons y ys =>
+      by_cases h1 : x < y
+      · have hne : x ≠ y := fun e => u8_lt_irrefl y (e ▸ h1)
+        simp [cmpBytes, h1, hne]
+      · by_cases h2 : y < x
+        · have hne : x ≠ y := fun e => u8_lt_irrefl y (e ▸ h2)
+          simp [cmpBytes, h1, h2, hne]
+        · have e : x = y := u8_eq_of_not_lt h1 h2
+          subst e
+          simp [cmpBytes, h1, ih]
+
+theorem cmpBytes_gt_iff_lt (a b : Bytes) : cmpBytes a b = .gt ↔ cmpBytes b a = .lt := by
+  induction a generalizing b with
+  | nil => cases b <;> simp [cmpBytes]
+  | cons x xs ih =>
+    cases b with
+    | nil => simp [cmpBytes]
+    | cons y ys =>
+      by_cases h1 : x < y
+      · have h2 := u8_lt_asymm h1
+        simp [cmpBytes, h1, h2]
+      · by_cases h2 : y < x
+        · simp [cmpBytes, h1, h2]
+        · simp [cmpBytes, h1, h2, ih]
+
+theorem cmpBytes_trans (a b c : Bytes) (h1 : cmpBytes a b = .lt) (h2 : cmpBytes b c = .lt) :
+    cmpBytes a c = .lt := by
+  induction a generalizing b c with
+  | nil =>
+    cases b with
+    | nil => simp [cmpBytes] at h1
+    | cons y ys => cases c <;> simp [cmpBytes] at h2 ⊢
+  | cons x xs ih =>
+    cases b with
+    | nil => simp [cmpBytes] at h1
+    | cons y ys =>
+      cases c with
+      | nil => simp [cmpBytes] at h2
+      | cons z zs =>
+        simp only [cmpBytes] at h1 h2 ⊢
+        by_cases hxy : x < y
+        · by_cases hyz : y < z
+          · simp [u8_lt_trans hxy hyz]
+          · by_cases hzy : z < y
+            · simp [hyz, hzy] at h2
+            · have e : y = z := u8_eq_of_not_lt hyz hzy
+              subst e
+              simp [hxy]
+        · by_cases hyx : y < x
+          · simp [hxy, hyx] at h1
+          · have e : x = y := u8_eq_of_not_lt hxy hyx
+            subst e
+            simp only [hxy, if_false] at h1
+            by_cases hyz : x < z
+            · simp [hyz]
+            · by_cases hzy : z < x
+              · simp [hyz, hzy] at h2
+              · simp only [hyz, hzy, if_false] at h2 ⊢
+                exact ih ys zs h1 h2
+
+/-! ### `sortFieldName` / `cmpDecl`, unconditional facts -/
+
+theorem sortFieldName_never_eq (a b : Bytes) : sortFieldName a b ≠ .eq := by
+  by_cases h : a = b
+  · subst h; rw [sortFieldName_self]; intro e; cases e
+  · exact sortFieldName_ne_eq a b h
+
+theorem sortFieldName_lt_trans (a b c : Bytes)
+    (h1 : sortFieldName a b = .lt) (h2 : sortFieldName b c = .lt) : sortFieldName a c = .lt := by
+  by_cases hab : a = b
+  · subst hab; exact h2
+  · by_cases hbc : b = c
+    · subst hbc; exact h1
+    · exact (sortFieldName_trans a b c hab hbc h1 h2).2
+
+theorem sortFieldName_total (a b : Bytes) (h : sortFieldName a b ≠ .lt) : sortFieldName b a = .lt := by
+  have hab : a ≠ b := by
+    intro e; subst e; exact h (sortFieldName_self a)
+  have hgt : sortFieldName a b = .gt := by
+    have := sortFieldName_ne_eq a b hab
+    cases hc : sortFieldName a b <;> simp_all
+  exact (sortFieldName_antisymm b a (Ne.symm hab)).mpr hgt
+
+theorem cmpDecl_lt_iff (a b : Decl) :
+    cmpDecl a b = .lt ↔
+      cmpBytes a.ty b.ty = .lt ∨ (a.ty = b.ty ∧ sortFieldName a.name b.name = .lt) := by
+  unfold cmpDecl
+  cases hc : cmpBytes a.ty b.ty
+  · simp
+  · have := (cmpBytes_eq_iff a.ty b.ty).mp hc
+    simp [this]
+  · have : a.ty ≠ b.ty := by
+      intro e
+      have := (cmpBytes_eq_iff a.ty b.ty).mpr e
+      rw [this] at hc; cases hc
+    simp [this]
+
+theorem cmpDecl_never_eq (a b : Decl) : cmpDecl a b ≠ .eq := by
+  unfold cmpDecl
+  cases hc : cmpBytes a.ty b.ty
+  · simp
+  · simpa using sortFieldName_never_eq a.name b.name
+  · simp
+
+theorem leDecl_iff (a b : Decl) : leDecl a b = true ↔ cmpDecl a b = .lt := by
+  have := cmpDecl_never_eq a b
+  unfold leDecl
+  cases hc : cmpDecl a b <;> simp_all
+
+theorem cmpDecl_lt_trans (a b c : Decl) (h1 : cmpDecl a b = .lt) (h2 : cmpDecl b c = .lt) :
+    cmpDecl a c = .lt := by
+  rw [cmpDecl_lt_iff] at h1 h2 ⊢
+  rcases h1 with h1 | ⟨e1, h1⟩
+  · rcases h2 with h2 | ⟨e2, h2⟩
+    · exact Or.inl (cmpBytes_trans _ _ _ h1 h2)
+    · exact Or.inl (e2 ▸ h1)
+  · rcases h2 with h2 | ⟨e2, h2⟩
+    · exact Or.inl (e1 ▸ h2)
+    · exact Or.inr ⟨e1.trans e2, sortFieldName_lt_trans _ _ _ h1 h2⟩
+
+theorem cmpDecl_total (a b : Decl) (h : cmpDecl a b ≠ .lt) : cmpDecl b a = .lt := by
+  rw [cmpDecl_lt_iff]
+  rw [Ne, cmpDecl_lt_iff] at h
+  cases hc : cmpBytes a.ty b.ty
+  · exact absurd (Or.inl hc) h
+  · have e := (cmpBytes_eq_iff a.ty b.ty).mp hc
+    refine Or.inr ⟨e.symm, sortFieldName_total _ _ ?_⟩
+    intro hlt
+    exact h (Or.inr ⟨e, hlt⟩)
+  · exact Or.inl ((cmpBytes_gt_iff_lt _ _).mp hc)
+
+/-! ### insertion sort -/
+
+theorem mem_insertSorted (x a : Decl) (l : List Decl) : x ∈ insertSorted a l ↔ x = a ∨ x ∈ l := by
+  induction l with
+  | nil => simp [insertSorted]
+  | cons b bs ih =>
+    unfold insertSorted
+    split
+    · simp
+    · simp [ih]
+      constructor
+      · rintro (h | h | h) <;> simp [h]
+      · rintro (h | h | h) <;> simp [h]
+
+theorem mem_sortDecls (x : Decl) (l : List Decl) : x ∈ sortDecls l ↔ x ∈ l := by
+  induction l with
+  | nil => simp [sortDecls]
+  | cons a as ih => simp [sortDecls, mem_insertSorted, ih]
+
+theorem pairwise_insertSorted (a : Decl) (l : List Decl)
+    (h : List.Pairwise (fun x y => cmpDecl x y = .lt) l) :
+    List.Pairwise (fun x y => cmpDecl x y = .lt) (insertSorted a l) := by
+  induction l with
+  | nil => simp [insertSorted]
+  | cons b bs ih =>
+    rw [List.pairwise_cons] at h
+    unfold insertSorted
+    split
+    · rename_i hle
+      have hab := (leDecl_iff a b).mp hle
+      refine List.Pairwise.cons ?_ (List.Pairwise.cons h.1 h.2)
+      intro c hc
+      rcases List.mem_cons.mp hc with e | hc
+      · exact e ▸ hab
+      · exact cmpDecl_lt_trans a b c hab (h.1 c hc)
+    · rename_i hle
+      have hba : cmpDecl b a = .lt := cmpDecl_total a b (fun e => hle ((leDecl_iff a b).mpr e))
+      refine List.Pairwise.cons ?_ (ih h.2)
+      intro c hc
+      rcases (mem_insertSorted c a bs).mp hc with e | hc
+      · exact e ▸ hba
+      · exact h.1 c hc
+
+theorem pairwise_sortDecls (l : List Decl) :
+    List.Pairwise (fun x y => cmpDecl x y = .lt) (sortDecls l) := by
+  induction l with
+  | nil => simp [sortDecls]
+  | cons a as ih => exact pairwise_insertSorted a _ ih
 
 theorem mem_overloads (decls : List Decl) (d : Decl) : d ∈ overloads decls ↔ d ∈ decls := by
-  sorry
+  unfold overloads
+  simp only [List.mem_append, mem_sortDecls, List.mem_filter]
+  by_cases h : d.kind = .entrypoint <;> simp [h]
+
+/-! ### `startsWith` -/
+
+theorem startsWith_append_left (p x y : Bytes) : startsWith (p ++ x) (p ++ y) = startsWith x y := by
+  induction p with
+  | nil => rfl
+  | cons a as ih => simp [startsWith, ih]
+
+theorem startsWith_append_self (p r : Bytes) : startsWith (p ++ r) p = true := by
+  have := startsWith_append_left p r []
+  simp only [List.append_nil] at this
+  rw [this]; cases r <;> rfl
+
+theorem startsWith_keyword (k k' : Kind) (x y : Bytes)
+    (h : startsWith (keyword k ++ x) (keyword k' ++ y) = true) : k = k' := by
+  cases k <;> cases k' <;> first | rfl | (simp [keyword, startsWith] at h)
+
+/-- two dot-terminated, dot-free segments: prefix relation forces equal segments -/
+theorem startsWith_dot (n1 n2 a b : Bytes) (h1 : ∀ x ∈ n1, x ≠ 46) (h2 : ∀ x ∈ n2, x ≠ 46)
+    (h : startsWith (n1 ++ 46 :: a) (n2 ++ 46 :: b) = true) : n1 = n2 ∧ startsWith a b = true := by
+  induction n1 generalizing n2 with
+  | nil =>
+    cases n2 with
+    | nil => simpa [startsWith] using h
+    | cons y ys =>
+      simp [startsWith] at h
+      exact absurd h.1.symm (h2 y (by simp))
+  | cons x xs ih =>
+    cases n2 with
+    | nil =>
+      simp [startsWith] at h
+      exact absurd h.1 (h1 x (by simp))
+    | cons y ys =>
+      simp [startsWith] at h
+      have := ih ys (fun z hz => h1 z (by simp [hz])) (fun z hz => h2 z (by simp [hz])) h.2
+      exact ⟨by rw [h.1, this.1], this.2⟩
+
+/-- a name-character prefix of `name ++ rest` cannot reach into `rest` -/
+theorem startsWith_name (n rest p : Bytes) (hp : p.all isNameChar = true) (hr : restOk rest = true)
+    (h : startsWith (n ++ rest) p = true) : startsWith n p = true := by
+  induction n generalizing p with
+  | nil =>
+    cases p with
+    | nil => rfl
+    | cons y ys =>
+      cases rest with
+      | nil => simp [startsWith] at h
+      | cons b bs =>
+        simp [startsWith] at h
+        simp [restOk] at hr
+        simp at hp
+        rw [h.1, hp.1] at hr
+        cases hr
+  | cons x xs ih =>
+    cases p with
+    | nil => rfl
+    | cons y ys =>
+      simp [startsWith] at h ⊢
+      simp at hp
+      exact ⟨h.1, ih ys (by simpa using hp.2) h.2⟩
+
+theorem isName_no_dot (n : Bytes) (h : isName n = true) : ∀ x ∈ n, x ≠ 46 := by
+  intro x hx e
+  simp [isName] at h
+  have := h.2 x hx
+  rw [e] at this
+  revert this
+  decide
+
+theorem isName_all (n : Bytes) (h : isName n = true) : n.all isNameChar = true := by
+  simp [isName] at h
+  simpa using h.2
+
+theorem pattern_append (d : Decl) (rest : Bytes) :
+    pattern d ++ rest = keyword d.kind ++ (32 :: (d.ty ++ 46 :: (d.name ++ rest))) := by
+  simp [pattern, List.append_assoc]
+
+theorem stripWs_lead (lead x : Bytes) (hl : leadOk lead = true) : stripWs (lead ++ x) = stripWs x := by
+  induction lead with
+  | nil => rfl
+  | cons b bs ih =>
+    simp [leadOk] at hl
+    have hb : (b == 32 || b == 9 || b == 10) = true := by simpa using hl.1
+    simp only [List.cons_append, stripWs, hb, if_true]
+    exact ih (by simpa [leadOk] using hl.2)
+
+theorem stripWs_pattern (d : Decl) (rest : Bytes) : stripWs (pattern d ++ rest) = pattern d ++ rest := by
+  rw [pattern_append]
+  cases d.kind <;> simp [keyword, stripWs]
+
+theorem accepts_canonical (d d' : Decl) (lead rest : Bytes) (hl : leadOk lead = true) :
+    accepts (pattern d') (canonicalLiteral d lead rest) = startsWith (pattern d ++ rest) (pattern d') := by
+  unfold accepts canonicalLiteral
+  rw [List.append_assoc, stripWs_lead _ _ hl, stripWs_pattern]
+
+/-- what an accepting overload looks like -/
+theorem accept_inv (d d' : Decl) (rest : Bytes) (hr : restOk rest = true)
+    (hd : isName d.ty = true) (hd' : isName d'.ty = true ∧ isName d'.name = true)
+    (h : startsWith (pattern d ++ rest) (pattern d') = true) :
+    d'.kind = d.kind ∧ d'.ty = d.ty ∧ startsWith d.name d'.name = true := by
+  have e0 : pattern d' = pattern d' ++ [] := by simp
+  rw [e0, pattern_append, pattern_append] at h
+  have hk := startsWith_keyword _ _ _ _ h
+  rw [hk, startsWith_append_left] at h
+  simp only [startsWith, beq_self_eq_true, Bool.true_and] at h
+  have := startsWith_dot _ _ _ _ (isName_no_dot _ hd) (isName_no_dot _ hd'.1) h
+  refine ⟨hk.symm, this.1.symm, ?_⟩
+  have h3 := this.2
+  rw [List.append_nil] at h3
+  exact startsWith_name _ _ _ (isName_all _ hd'.2) hr h3
+
+/-! ### `firstMatch` -/
+
+theorem firstMatch_append_some (A B : List Decl) (lit : Bytes) (d : Decl)
+    (h : firstMatch A lit = some d) : firstMatch (A ++ B) lit = some d := by
+  induction A with
+  | nil => simp [firstMatch] at h
+  | cons a as ih =>
+    simp only [List.cons_append, firstMatch] at h ⊢
+    split
+    · rename_i hc; simpa [hc] using h
+    · rename_i hc; simp only [hc] at h; exact ih h
+
+theorem firstMatch_append_none (A B : List Decl) (lit : Bytes)
+    (h : ∀ x ∈ A, accepts (pattern x) lit = false) : firstMatch (A ++ B) lit = firstMatch B lit := by
+  induction A with
+  | nil => rfl
+  | cons a as ih =>
+    simp only [List.cons_append, firstMatch]
+    rw [h a (by simp)]
+    exact ih (fun x hx => h x (by simp [hx]))
+
+theorem firstMatch_sorted (L : List Decl) (lit : Bytes) (d : Decl)
+    (hs : List.Pairwise (fun x y => cmpDecl x y = .lt) L) (hd : d ∈ L)
+    (ha : accepts (pattern d) lit = true)
+    (hothers : ∀ x ∈ L, accepts (pattern x) lit = true → x = d ∨ cmpDecl x d ≠ .lt) :
+    firstMatch L lit = some d := by
+  induction L with
+  | nil => cases hd
+  | cons x xs ih =>
+    rw [List.pairwise_cons] at hs
+    simp only [firstMatch]
+    by_cases hx : accepts (pattern x) lit = true
+    · simp only [hx, if_true]
+      rcases hothers x (by simp) hx with e | hne
+      · rw [e]
+      · rcases List.mem_cons.mp hd with e | hmem
+        · rw [e]
+        · exact absurd (hs.1 d hmem) hne
+    · simp only [hx]
+      rcases List.mem_cons.mp hd with e | hmem
+      · exact absurd (e ▸ ha) hx
+      · exact ih hs.2 hmem (fun y hy => hothers y (by simp [hy]))
 
 theorem first_match (decls : List Decl) (hwf : WF decls) (hu : KeyUnique decls)
     (d : Decl) (hd : d ∈ decls) (lead rest : Bytes) (hl : leadOk lead = true) (hr : restOk rest = true) :
     firstMatch (overloads decls) (canonicalLiteral d lead rest) = some d := by
-  sorry
+  -- every accepting declaration of the program is `d` or sorts after `d`
+  have hacc : ∀ x ∈ decls, accepts (pattern x) (canonicalLiteral d lead rest) = true →
+      x.kind = d.kind ∧ (x = d ∨ cmpDecl x d ≠ .lt) := by
+    intro x hx hax
+    rw [accepts_canonical _ _ _ _ hl] at hax
+    obtain ⟨hk, ht, hn⟩ := accept_inv d x rest hr (hwf d hd).1 (hwf x hx) hax
+    refine ⟨hk, ?_⟩
+    by_cases hname : d.name = x.name
+    · exact Or.inl (hu d hd x hx (by rw [hk]) ht.symm hname).symm
+    · right
+      have h1 := sortFieldName_longer_first d.name x.name hname hn
+      have h2 := (sortFieldName_antisymm d.name x.name hname).mp h1
+      intro hlt
+      rw [cmpDecl_lt_iff] at hlt
+      rcases hlt with hlt | ⟨_, hlt⟩
+      · have := (cmpBytes_eq_iff x.ty d.ty).mpr ht
+        rw [this] at hlt; cases hlt
+      · rw [h2] at hlt; cases hlt
+  have hself : accepts (pattern d) (canonicalLiteral d lead rest) = true := by
+    rw [accepts_canonical _ _ _ _ hl]; exact startsWith_append_self _ _
+  unfold overloads
+  by_cases hk : d.kind = .entrypoint
+  · rw [firstMatch_append_none]
+    · apply firstMatch_sorted _ _ _ (pairwise_sortDecls _)
+      · rw [mem_sortDecls]; simp [hd, hk]
+      · exact hself
+      · intro x hx hax
+        rw [mem_sortDecls, List.mem_filter] at hx
+        exact (hacc x hx.1 hax).2
+    · intro x hx
+      rw [mem_sortDecls, List.mem_filter] at hx
+      cases hax : accepts (pattern x) (canonicalLiteral d lead rest)
+      · rfl
+      · have := (hacc x hx.1 hax).1
+        rw [hk] at this
+        simp [this] at hx
+  · apply firstMatch_append_some
+    apply firstMatch_sorted _ _ _ (pairwise_sortDecls _)
+    · rw [mem_sortDecls]; simp [hd, hk]
+    · exact hself
+    · intro x hx hax
+      rw [mem_sortDecls, List.mem_filter] at hx
+      exact (hacc x hx.1 hax).2
 
 end IsoVerif.IsoOverload
